@@ -21,7 +21,7 @@ THEOREMS = [
     "QExPy.C02_sample_mean_transform", "QExPy.C02_sample_cov_transform",
     "QExPy.C02_standardised_draws", "QExPy.C02_draws_carry_correlations3", "QExPy.C02_affine_exact",
     "QExPy.C02_result_def", "QExPy.C02_result_moments", "QExPy.C02_discard", "QExPy.C02_kept_le",
-    "QExPy.C02_scaleShift_moments",
+    "QExPy.C02_scaleShift_moments", "QExPy.C02_dataSets_entry",
 ]
 RULE = ("seeded formula DAGs over 1-3 measurements (all operators, shared sub-expressions), "
         "sigma/|mu| in [1e-3, 0.5] or 0, correlation structure in {none, random PD, near-singular "
@@ -224,8 +224,12 @@ def observe(q, case):
                 r.error_method = q.ErrorMethod.MONTE_CARLO
             if case["per"]:
                 r.mc.sample_size = case["per"]
-            out["value"], out["error"] = float(r.value), float(r.error)
             s = r.mc.samples()
+            out["ncalls"] = len(cap.calls)
+            out["value"], out["error"] = float(r.value), float(r.error)
+            # when every draw is undefined the stored set is empty and the library simulates
+            # again on each access: value/error then belong to another simulation (case skipped)
+            out["redrawn"] = len(cap.calls) != out["ncalls"]
             out["samples"] = np.array(s, dtype=float)
             out["order"] = M.source_order(q, r, meas)
             out["R"] = M.corr_matrix_impl(q, meas, out["order"])
@@ -260,7 +264,8 @@ def expected_R(case, order):
 def last_batch(o):
     """the offset arrays of the simulation whose samples are stored: the last len(order) draws"""
     k = len(o["order"])
-    calls = o["calls"][-k:] if k else []
+    upto = o.get("ncalls", len(o["calls"]))
+    calls = o["calls"][upto - k:upto] if k else []
     return calls
 
 
@@ -398,7 +403,7 @@ def run(ctx, n_cases, sizes, ref=False, cases=None, force_kind=None):
         dist["repeated-measurement-sources:{}".format(len(c.get("raw", {})))] += 1
         for op in set(c["ops"]):
             dist["op:" + op] += 1
-        if "exception" not in o and ill_conditioned(o):
+        if "exception" not in o and (ill_conditioned(o) or o.get("redrawn")):
             skipped += 1
             continue
         _, nt = judge(c, o, mod.get(i, {}), failures, dist)
@@ -554,6 +559,8 @@ def reference_check(case, o):
             "fallback" if case["kind"] in ("nonpd", "unit") else case["kind"],
             o["exception"].split(":")[0]),
             what="Monte Carlo evaluation raised " + o["exception"])
+    if o.get("redrawn"):
+        return None
     order = o["order"]
     k = len(order)
     vals, errs = o["vals_eff"], o["errs_eff"]
